@@ -154,7 +154,7 @@ def _trace_one(args):
     from .ptrace import trace_parse_sql, final_outcome
     r = trace_parse_sql(sql, dialect)
     exc = r['exc']
-    return {'trace': r['trace'], 'final': final_outcome(r['result'], exc),
+    return {'trace': r['trace'], 'call': r['call'], 'final': final_outcome(r['result'], exc),
             'msg': (str(exc)[:2000] if exc is not None else ''),
             'nested': r['nested_runs'], 'ended': r['driver_ended']}
 
